@@ -730,21 +730,33 @@ class Vector():
 		# =====================================================================
 		# FAST-PATH TYPE CHECK / PROMOTION
 		# =====================================================================
+		make_nullable = False
 		if updates:
 			new_values = [v for _, v in updates]
 
+			# None makes the column nullable (whatever its kind); the flag is applied
+			# together with the storage swap, so a failed write leaves the dtype alone
+			if self._dtype is not None and not self._dtype.nullable:
+				make_nullable = any(v is None for v in new_values)
+
 			# Object dtype accepts any type - skip validation
 			if self._dtype is not None and self._dtype.kind is not object:
-				incompatible = None
-				for val in new_values:
-					try:
-						validate_scalar(val, self._dtype)
-					except TypeError:
-						incompatible = val
-						break
+				# Fold EVERY incoming value into the dtype the column must have
+				# afterwards (not just the first incompatible one): a later
+				# incompatible value is rejected too, and None makes the column nullable.
+				required_dtype = self._dtype
+				with warnings.catch_warnings():
+					warnings.simplefilter("ignore")
+					for val in new_values:
+						required_dtype = required_dtype.promote_with(val)
+						if required_dtype.kind is object:
+							raise SerifTypeError(
+								f"Cannot set {type(val).__name__} in "
+								f"{self._dtype.kind.__name__} vector. "
+								f"Promotion not supported."
+							)
 
-				if incompatible is not None:
-					required_dtype = infer_dtype([incompatible])
+				if required_dtype.kind is not self._dtype.kind:
 					try:
 						self._promote(required_dtype.kind)
 						underlying = self._underlying
@@ -768,6 +780,8 @@ class Vector():
 
 		_alias.unregister(self, old_id)
 		self._underlying = new_tuple
+		if make_nullable:
+			self._dtype = self._dtype.with_nullable(True)
 		self._invalidate_fp()
 		_alias.register(self, id(new_tuple))
 
